@@ -168,7 +168,7 @@ SPEC = {
     "gens": ["MacroTables", "LexTables"],
     "lean_modules": ["RsslVerif.Thm.C12", "RsslVerif.Thm.C12Boundary"],
     "theorems": [T + n for n in [
-        "source_shape", "expand_terminates", "expand_never_hangs", "object_like_is_substitution", "function_like_is_substitution",
+        "source_shape", "source_shape_directive_forms", "expand_terminates", "expand_never_hangs", "object_like_is_substitution", "function_like_is_substitution",
         "define_undef_scoping", "macro_names_always_distinct", "api_defines_equal_file_defines",
         "expand_refines_spec_partial", "expand_refines_spec", "expand_refines_spec_decided", "tame_class_is_decided",
         "expand_refines_spec_with_paste", "expand_refines_spec_with_paste_decided",
@@ -180,7 +180,8 @@ SPEC = {
         "api_defines_equal_file_defines_tokens", "include_of_empty_file",
         "include_is_paste", "pragma_once_once",
         "invocation_may_continue_on_next_line", "agrees_line_end_before_parenthesis",
-        "api_define_with_line_break_is_rejected",
+        "api_define_with_line_break_is_rejected", "rejected_directive_rejects_the_file",
+        "null_directive_is_boundary_and_empty_line",
         "differs_unused_argument_expanded", "differs_argument_repainted",
         "differs_painted_function_name_reinvoked", "differs_painted_function_name_reinvoked_acyclic",
         "differs_function_name_before_vanished_macro", "differs_empty_argument_next_to_paste",
@@ -228,7 +229,17 @@ SPEC = {
                   "lines between two block boundaries (empty file: one line end; an invocation does not span the start or end of an "
                   "included file: known finding invocation-spans-file-boundary against the textual reading); a #pragma once file "
                   "contributes once under every include name that reaches it (pragma_once_once, once-set keyed by the real name "
-                  "since fix d66a6d7); an API define with a line break is rejected (fix 3c81ed5). PARTIAL: "
+                  "since fix d66a6d7); an API define with a line break is rejected (fix 3c81ed5; since wave 5 also exercised by the correspondence run). "
+                  "DIRECTIVE FORMS (wave 5): a directive line that preprocess_command rejects whatever the state (#pragma with an "
+                  "unknown or missing name, an unknown directive name, #include whose operand is not one string / header name) "
+                  "makes the file fail wherever it stands, after the text in front of it was expanded -- an error of that text wins "
+                  "-- and nothing behind it is looked at (rejected_directive_rejects_the_file, universal); the null directive (# "
+                  "alone on a line) is worth a directive without effect plus an empty line, in every file at every place "
+                  "(null_directive_is_boundary_and_empty_line, universal). The SPELLING of a program (tab / line continuation / "
+                  "line comment / block comment over a line end as white space, CR LF, no final line end, '# define', "
+                  "#include <f>) does not reach the model's theorems: every such spelling is the same token list (one white-space "
+                  "token that is not a line end), which the correspondence run checks against the real lexer and preprocessor. "
+                  "PARTIAL: "
                   "(a) of ##: operands or results that are enabled macro names, ## inside the argument list of a nested invocation, "
                   "empty arguments next to ## lie outside the class; (b) invocations completed by the text after the end of an "
                   "expansion are excluded from the class (universal statement for the model: trailing_function_name_is_invoked; "
@@ -264,7 +275,17 @@ SPEC = {
             "observation form (kind and value) by the real lexer; a disagreement with the reference is attributed to known "
             "deviation classes only if the reference with exactly their mimic switches reproduces the real output, the first "
             "unexplained programs are shrunk in the harness (parentheses kept balanced); non-trivial = a macro is defined and at "
-            "least three tokens come out",
+            "least three tokens come out; WAVE 5 dimensions: a third of the programs of every family are re-spelled with the "
+            "same tokens (white space as tab, line continuation backslash-newline, block comment that holds a line end, a line "
+            "comment at the end of a line, white space added at token boundaries other than in front of '(', indented text "
+            "lines, files in CR LF, files without a final line end, '# define' with a blank after the hash, #include <f>, "
+            "white space inside the parameter list of an API name); parameters named like a macro of the program (its own "
+            "included); parenthesised groups of any shape in arguments (empty, one to three items, nested to depth 3, a comma "
+            "behind an inner ')', invocations inside); 'defined' as an ordinary identifier; #pragma once that is not the first "
+            "line of its file and in the entry file, with includes of such files; the null directive; rejected directive "
+            "lines (#pragma foo, #pragma, #foo, #1 foo, #include, #include foo, #include \"f1\" x) at any place of any file; "
+            "API values that hold a line end and API names that are no macro head; compile stream: redefinition of each of "
+            "the three built-in defines, values that name a later define",
     "trusted_base": [
         "Lean 4.33 kernel; axioms propext / Classical.choice / Quot.sound only (audited by #print axioms)",
         "tools/gens/c12.py (MacroTables: any_word keyword arms, preprocess_command directive arms and the retain/push shape of "
@@ -272,7 +293,8 @@ SPEC = {
         "MacroSearchPosition literal and the conditions of find_single_macro that consult it, the three trimming loops and "
         "which of them split_macro_args / find_single_macro / the arity test use, the statement sequence of the User arm "
         "from substitution to splice (no guard around the rescan), the Macro::parse + retain + push "
-        "path of initial defines, compile()'s built-in defines) and tools/gens/c10.py (LexTables, for paste_matches_lexer) — "
+        "path of initial defines, compile()'s built-in defines; wave 5: the patterns and guards of the line state machine of "
+        "preprocess_included_file, the operand arms of #include, the arms of preprocess_command that reject a directive) and tools/gens/c10.py (LexTables, for paste_matches_lexer) — "
         "re-run on /repo's working tree every time",
         "hand-written Model/Macro.lean and Model/Include.lean mirror preprocess.rs; tied to the code by the correspondence run only",
         "Spec/CPreMacro.lean: our reading of C11 6.10.3 (Prosser's algorithm) and 6.10.3.5 (scope of definitions); "
@@ -287,6 +309,11 @@ SPEC = {
         "the lexer is used as given (C10): the reference works on spellings, and (a) whether a joined spelling that is neither "
         "identifier-shaped nor a canonical decimal is one token, (b) the observation form (kind, value) of a spelling in the "
         "reference's output are asked of the real lexer (harness canon_single)",
+        "the spelling dimension (wave 5) lives in the harness: request tokens ~c ~t //c /*n*/ and the file flags !r !e !h are "
+        "turned into text by Program::render_file; that each line lexes to the intended token kinds (PhysicalEndline / "
+        "Whitespace / Comment) is checked with the real lexer (lex_faithful), CR LF and the missing final line end are "
+        "applied to the whole file after that check; the model's driver maps all of them to one white-space token and drops "
+        "the flags (Driver/C12.lean parseTok / parseFile)",
         "the resource class expansion-explodes-without-persistent-paint (C12.limit requests of the corpus) is recognised by size "
         "(> 1000 x the reference's token count, or time/memory limit), not by reproducing the output",
     ],
@@ -300,6 +327,10 @@ SPEC = {
         "real file name (FileLoader serves the content stored when a real name was first seen; a request that gives two "
         "contents to one real name is answered 'unsupported' by the model)",
         "include recursion is cut by fuel in the model (the code has no bound: C08)",
+        "not reached by any stream (one line each in notes/C12.md): an API define whose text does not lex (preprocess.rs:1496), "
+        "a missing entry file (1537), duplicate parameter names and a parameter list with '...' (outside C / outside the subset), "
+        "white space between '#' and the line end of a null directive ('# ' + line end: the blank goes to active_tokens; only "
+        "'#' + line end is rendered), form feed / vertical tab / a lone CR (lexer, C10)",
         "a compilation that the real code rejects counts as reproduced by a reference run that rejects it, whatever the error "
         "kinds (a program with two errors may meet them in another order); the generators keep parentheses balanced in "
         "replacement lists (the unbalanced case is the known finding argument-list-ends-behind-replacement-list, corpus only)",
